@@ -76,7 +76,7 @@ def _exporter(ctx, model):
     hm = model.lookup(mp, "_map_multi_children_op")
     if hm is None or hm.kind != "func":
         raise AnalysisError("_map_multi_children_op not found")
-    fold = _analyse_fold(hm)
+    fold = _analyse_fold(hm, model.inlined(hm.node))
     ctx.ob("E/exporter/_map_multi_children_op/order", fold == "in-order",
            where(hm),
            "children are exported in order and folded a op (b op (c ...))"
@@ -116,10 +116,10 @@ def model_resolve(model, mp, n):
     return resolve_handler(model, mp, n)
 
 
-def _analyse_fold(hm):
+def _analyse_fold(hm, fn=None):
     """-> "in-order" | text describing what is wrong.  AnalysisError for shapes
     that are neither recognised as right nor as wrong."""
-    fn = hm.node
+    fn = fn if fn is not None else hm.node
     params = [a.arg for a in fn.args.args]
     children, op = params[1], params[2]
     U = lambda n: ast.unparse(n).replace(" ", "")     # noqa: E731
